@@ -347,3 +347,63 @@ pub fn string_lengths(thorough: bool) -> Sweep {
     }
     Sweep { name: "string-lengths", points, failures }
 }
+
+// ------------------------------------------------------------------------------------ logs
+
+/// what the host reads after logging `msgs` (api level, ASCII and multi-byte): the last
+/// `capacity` bytes of their concatenation
+pub fn log_lengths(thorough: bool) -> Sweep {
+    use shopify_function_wasm_api as api;
+    let max = if thorough { 5000 } else { 2300 };
+    let mut plans: Vec<Vec<(usize, u64)>> = Vec::new();
+    for l in 0..=max {
+        plans.push(vec![(l, (l % 7) as u64)]);
+        plans.push(vec![(l, 1000 + (l % 5) as u64)]);
+    }
+    let grid: Vec<usize> = (0..=2100).step_by(if thorough { 53 } else { 149 }).chain([1000usize, 1001, 1002, 2001, 2002]).collect();
+    for &a in &grid {
+        for &b in &grid {
+            plans.push(vec![(a, 3), (b, 1001)]);
+        }
+    }
+    for &a in &[0usize, 1, 500, 1000, 1001, 1002] {
+        for &b in &[0usize, 1, 501, 1001] {
+            for &c in &[0usize, 1, 2, 999, 1001, 1500] {
+                plans.push(vec![(a, 2), (b, 1002), (c, 4)]);
+            }
+        }
+    }
+    let points = plans.len();
+    let mut failures = Vec::new();
+    for chunk in plans.chunks(512) {
+        let chunk: Vec<Vec<(usize, u64)>> = chunk.to_vec();
+        let fs = on_fresh_thread(move || {
+            let mut fails = Vec::new();
+            for plan in &chunk {
+                prov::initialize_from_msgpack_bytes(vec![0xc0]);
+                let mut all: Vec<u8> = Vec::new();
+                for &(l, seed) in plan {
+                    let m = crate::util::msg_bytes(l, seed);
+                    let ms = unsafe { std::str::from_utf8_unchecked(&m) };
+                    let mut c = api::Context;
+                    c.log(ms);
+                    all.extend_from_slice(&m);
+                }
+                let (s1, s2, _, _, _, cap) = prov::verif::log_snapshot();
+                let mut got = s1;
+                got.extend_from_slice(&s2);
+                let expect = &all[all.len().saturating_sub(cap)..];
+                if got != expect {
+                    fails.push(format!("after logging messages of {:?} (length, pattern) the host reads {} bytes that are not the last {} bytes logged", plan, got.len(), expect.len()));
+                }
+            }
+            fails
+        });
+        for f in fs {
+            if failures.len() < 8 {
+                failures.push(if f == "PANIC" { "PANIC while logging".to_string() } else { f });
+            }
+        }
+    }
+    Sweep { name: "log-lengths", points, failures }
+}
